@@ -115,12 +115,23 @@ Definition props_range (c : cpos) : rng :=
   | None => zero_rng
   end.
 
+(* ReceiverMeta.RetValsRange over the ranges of the single return values in declaration order
+   (the code sorts by ordinal): the zero range for a method that returns nothing, else from the
+   START POSITION of the first value to the END POSITION of the last one - positions, not lines
+   and columns taken apart: a result list may be spread over several lines *)
+Definition rets_range (l : list rng) : rng :=
+  match l with
+  | [] => zero_rng
+  | a :: t => let b := last t a in
+              {| g_sl := g_sl a; g_sc := g_sc a; g_el := g_el b; g_ec := g_ec b |}
+  end.
+
 (* where the source puts the pieces of one receiver: annotation i, parameter j (the whole field),
    the return types (ReceiverMeta.RetValsRange; the zero range for a method that returns nothing) *)
 Record layout := { ly_attrs : list cpos; ly_params : list rng; ly_rets : rng }.
 
 Definition dummy_cpos : cpos := {| c_line := 0; c_col := 0; c_text := [] |}.
-Definition dummy_attr : lattr := {| la_kind := KUnknown; la_value := []; la_alias := ANone |}.
+Definition dummy_attr : lattr := {| la_kind := KUnknown; la_value := []; la_alias := ANone; la_xprop := false |}.
 
 Definition diag_range (r : route) (ly : layout) (d : diag) : rng :=
   match d_anchor d with
@@ -251,6 +262,31 @@ Definition inside (a b : rng) : bool :=
   pos_leb (g_sl a) (g_sc a) (g_el a) (g_ec a)
   && pos_leb (g_sl b) (g_sc b) (g_sl a) (g_sc a)
   && pos_leb (g_el a) (g_ec a) (g_el b) (g_ec b).
+
+(* the pieces of a list in source order (the values of a result list, on one line or on several):
+   each starts not after it ends and ends not after the next one starts *)
+Definition rng_wf (a : rng) : bool := pos_leb (g_sl a) (g_sc a) (g_el a) (g_ec a).
+Fixpoint in_order (l : list rng) : bool :=
+  match l with
+  | [] => true
+  | a :: t => rng_wf a
+              && match t with [] => true | b :: _ => pos_leb (g_el a) (g_ec a) (g_sl b) (g_sc b) end
+              && in_order t
+  end.
+
+(* what a fold that takes the smallest line/column and the largest line/column APART would give
+   (not the code: the counterexample of [rets_range_not_componentwise]) *)
+Definition componentwise_hull (l : list rng) : rng :=
+  match l with
+  | [] => zero_rng
+  | a :: t => fold_left (fun h x => {| g_sl := N.min (g_sl h) (g_sl x); g_sc := N.min (g_sc h) (g_sc x);
+                                        g_el := N.max (g_el h) (g_el x); g_ec := N.max (g_ec h) (g_ec x) |}) t a
+  end.
+
+(* `(` newline tab types.Item `,` newline tab string `,` newline `)` behind a 30 column head *)
+Definition demo_wrapped_rets : list rng :=
+  [ {| g_sl := 21; g_sc := 1; g_el := 21; g_ec := 11 |}; {| g_sl := 22; g_sc := 1; g_el := 22; g_ec := 7 |} ].
+Definition demo_wrapped_list : rng := {| g_sl := 20; g_sc := 30; g_el := 23; g_ec := 1 |}.
 
 (* one observed diagnostic, with what the check read back from the source file: the number of
    lines of the file, the byte lengths of the start and end lines, the region of the construct it
